@@ -307,6 +307,68 @@ def submit_race_part(ctx, rp):
                    'threads up to 7 steps (%d runs)' % n, 'tie', True, '')
 
 
+def run_activation_race(rp, choices, final_state='FAILED'):
+    """a pilot ends while it is being activated: the activation (PMGR_ACTIVE, control subscriber thread) and the final
+    state (state subscriber thread) reach the real PilotManager._update_pilot on a thread each; the real TaskManager's
+    _pilot_state_cb is registered on the real Pilot.  Scheduling points: the pilot manager's lock and every callback the
+    pilot makes.  Returns the pilot's state and the states of a task bound to it and of a bystander."""
+    import coop
+    from props import c14
+    pm = c14.make_pmgr(rp)
+    order = []
+    pm._pilots_lock = c14.CoopRLock(order)
+    p = c14.make_pilot(rp, pm, 'pilot.0000', 'PMGR_LAUNCHING')
+    # (the locks around the callback walks are cooperative ones, too: a thread that finds one held parks)
+    p._cb_lock, pm._pcb_lock = c14.CoopRLock([]), c14.CoopRLock([])
+    tm = stubs.make_tmgr(rp)
+    ts = [stubs.make_task(rp, tm, 'task.000000', 'AGENT_EXECUTING', pilot='pilot.0000'),
+          stubs.make_task(rp, tm, 'task.000001', 'AGENT_EXECUTING', pilot='pilot.0001')]
+    def pcb(pilots):
+        coop.point('cb')
+        tm._pilot_state_cb(pilots)
+    p._callbacks[rp.constants.PILOT_STATE]['tmgr'] = {'cb': pcb, 'cb_data': None}
+    ctl = coop.Controller()
+    errs = []
+    try:
+        for name, st in (('activate', 'PMGR_ACTIVE'), ('final', final_state)):
+            def fn(st=st):
+                try: pm._update_pilot({'uid': 'pilot.0000', 'state': st, 'type': 'pilot'})
+                except coop.Abort: raise
+                except Exception as e: errs.append(type(e).__name__)
+            ctl.spawn(name, fn, run_to_first_point=False)
+        for c in list(choices):
+            if ctl.where(c) != 'done': ctl.grant(c)
+        for _ in range(200):
+            live = [n for n in ctl.workers if ctl.where(n) != 'done']
+            if not live: break
+            for n in live: ctl.grant(n)
+    finally:
+        ctl.close()
+    return p.state, [(t.state, str(t.exception_detail)) for t in ts], errs
+
+
+def activation_race_part(ctx, rp):
+    import itertools
+    n = 0
+    for k in range(0, 7):
+        for choices in itertools.product(['activate', 'final'], repeat=k):
+            for fs in (['FAILED'] if k > 3 else ['FAILED', 'CANCELED', 'DONE']):
+                pst, tasks, errs = run_activation_race(rp, choices, fs)
+                n += 1
+                ctx.case({'activation_race': list(choices), 'final': fs}, nontrivial='activate' in choices and 'final' in choices)
+                bad = None
+                if errs: bad = 'an update raised: %s' % errs
+                elif tasks[0][0] != 'FAILED' or 'pilot.0000' not in tasks[0][1]:
+                    bad = 'pilot.0000 was reported %s while it was being activated; afterwards the pilot object is %s, its task is %s (%s)' % (fs, pst, tasks[0][0], tasks[0][1])
+                elif tasks[1][0] != 'AGENT_EXECUTING':
+                    bad = 'the task of another pilot is %s' % tasks[1][0]
+                if bad:
+                    ctx.fail('activation:dead-pilot-keeps-its-tasks', bad + ' (schedule %s)' % list(choices),
+                             {'activation_race': {'choices': list(choices), 'final': fs}}, observed=[pst, tasks])
+    ctx.obligation('a pilot ends while it is being activated (two threads in the real _update_pilot, the real _pilot_state_cb registered): '
+                   'all schedules up to 6 steps (%d runs)' % n, 'tie', True, '')
+
+
 def contended_part(ctx, rp):
     import itertools
     n = 0
@@ -423,6 +485,7 @@ def run(ctx):
     added_part(ctx, rp)
     contended_part(ctx, rp)
     submit_race_part(ctx, rp)
+    activation_race_part(ctx, rp)
     tsts = [s for s in rp.states._task_state_values if s is not None]
     psts = [s for s in rp.states._pilot_state_values if s is not None]
     cases = list(CORPUS)
@@ -504,6 +567,10 @@ def replay(ctx, data):
                 if j in dead and (ts != 'FAILED' or 'pilot.%04d' % j not in str(det)): ok = False
                 if j not in dead and ts != ('TMGR_STAGING_INPUT_PENDING' if j in start else 'AGENT_EXECUTING'): ok = False
         return ok
+    if 'activation_race' in inp:
+        pst, tasks, errs = run_activation_race(rp, inp['activation_race']['choices'], inp['activation_race']['final'])
+        print(pst, tasks, errs)
+        return not errs and tasks[0][0] == 'FAILED' and 'pilot.0000' in tasks[0][1] and tasks[1][0] == 'AGENT_EXECUTING'
     if 'submit_race' in inp:
         events, view, errs = run_submit_race(rp, inp['submit_race']['choices'], inp['submit_race']['final'])
         bad = submit_race_monitor(events, view, errs, inp['submit_race']['final'])
